@@ -142,11 +142,10 @@ func genHours(t *rapid.T) string {
 		st := rapid.IntRange(0, 23*60+58).Draw(t, "start")
 		e := rapid.IntRange(st+1, 23*60+59).Draw(t, "end")
 		sh, sm := st/60, st%60
-		f := "%d:%02d-%d:%02d"
-		if rapid.Bool().Draw(t, "pad") {
-			f = "%02d:%02d-%02d:%02d"
-		}
-		return fmt.Sprintf(f, sh, sm, e/60, e%60)
+		return fmt.Sprintf("%d:%02d-%d:%02d", sh, sm, e/60, e%60) // (zero-padded hours are exercised by sub-check w)
+	}
+	if rapid.IntRange(0, 2).Draw(t, "hours-none") == 0 {
+		return ""
 	}
 	return rapid.SampledFrom(goodHours).Draw(t, "hours")
 }
@@ -750,11 +749,22 @@ func classifyA(c CaseA) core.Class {
 		cl.Labels = append(cl.Labels, "transport:http", fmt.Sprintf("hosts:%d", len(l.Hosts)), "host-ports:"+hp, fmt.Sprintf("portconn-set:%v", l.PortConn != ""),
 			fmt.Sprintf("headers:%d", len(l.Headers)), fmt.Sprintf("host-header:%v", l.HostHeader != ""), fmt.Sprintf("uris:%d", len(l.Uris)),
 			fmt.Sprintf("proxy:%v", l.ProxyEnabled), "rotation:"+l.HostRotation, fmt.Sprintf("secure:%v", l.Secure), fmt.Sprintf("hours-set:%v", l.WorkingHours != ""))
-		tr = fmt.Sprintf("http|%s|pc=%v|hh=%v|h0=%v|u0=%v|px=%v", hp, l.PortConn != "", l.HostHeader != "", len(l.Headers) == 0, len(l.Uris) == 0, l.ProxyEnabled)
+		tr = fmt.Sprintf("http|%s|pc=%v|hh+h=%v", hp, l.PortConn != "", l.HostHeader != "" && len(l.Headers) > 0)
 	}
 	nd := nonDefaults(o)
 	cl.NonTrivial = nd >= 2 || len(e.MustFail) > 0
-	cl.Fingerprint = fmt.Sprintf("%s|%s|%s|nd=%d|%s", kind, o.Technique, o.Gadget, nd, tr)
+	ndb := "0-1"
+	if nd >= 4 {
+		ndb = "4+"
+	} else if nd >= 2 {
+		ndb = "2-3"
+	}
+	if len(e.MustFail) > 0 {
+		// an unencodable case is characterised by what is wrong, not by the options
+		cl.Fingerprint = fmt.Sprintf("%s|%s", kind, tr)
+	} else {
+		cl.Fingerprint = fmt.Sprintf("%s|%s|%s|nd=%s|%s", kind, o.Technique, o.Gadget, ndb, tr)
+	}
 	return cl
 }
 
